@@ -25,7 +25,7 @@ func runC03(p *Program, r *Report) {
 	for _, m := range []struct {
 		r string
 		n int
-	}{{"C03.R1", 15}, {"C03.R2", 1}, {"C03.R4", 15}, {"C03.R5", 5}, {"C03.R6", 4}, {"C03.R7", 2}, {"C03.R8", 1}, {"C03.R9", 1}, {"C03.R10", 1}, {"C03.R11", 1}} {
+	}{{"C03.R1", 15}, {"C03.R2", 1}, {"C03.R4", 15}, {"C03.R5", 5}, {"C03.R6", 4}, {"C03.R7", 2}, {"C03.R8", 1}, {"C03.R9", 1}, {"C03.R10", 1}, {"C03.R11", 1}, {"C03.R12", 2}} {
 		r.Min(m.r, m.n)
 	}
 	pl, err := loadPolicy(p)
@@ -126,6 +126,7 @@ func runC03(p *Program, r *Report) {
 	checkConditionalNamesBodyKind(p, r, "C03.R8")
 	checkOpaqueBodyNotUndone(p, r, "C03.R10")
 	checkInstalledFuncMaps(p, r, "C03.R11")
+	checkPredefinedEscaperTest(p, r, "C03.R12")
 	checkAttrNameContinuation(p, r, "C03.R9")
 }
 
